@@ -1,6 +1,6 @@
 #!/usr/bin/env python3
 import re
-src=open('/root/scratch/c08/coq/Proofs/CloseProtoInv.v').read()
+src=open('/verif/coq/Proofs/CloseProtoInv.v').read()
 rec=src[src.index('Record Inv (s : state) : Prop := {')+len('Record Inv (s : state) : Prop := {'):]
 rec=rec[:rec.index('\n}.')]
 rec=re.sub(r'\(\*.*?\*\)','',rec,flags=re.S)
